@@ -24,6 +24,7 @@ bool isFinished(int tid);
 void markTerminated(int tid);                    // thread is never scheduled again (QThread::terminate)
 // schedule point BEFORE performing `op`. Returns true if the operation was resumed by its timeout (canTimeout) instead of by `enabled`.
 bool point(const char *op, std::function<bool()> enabled = nullptr, bool voluntary = false, bool canTimeout = false);
+void progress();                                 // something observable happened (a delivery, an operation completed): resets the livelock watchdog
 void observe(const std::string &line);           // appended to the execution's report (outcome = all lines)
 void violation(const std::string &key, const std::string &what);
 extern std::function<void(const std::string &status)> atEnd; // harness oracle, runs in the child when the execution ends (any status)
